@@ -1,8 +1,10 @@
 package main
 
 import (
+	"bufio"
 	"fmt"
 	"net"
+	"net/http"
 	"os"
 	"runtime"
 	"sync"
@@ -248,6 +250,39 @@ func runC09(c *Ctx) error {
 		}
 		if n := settleGoroutines(base); n > base {
 			c.oracleFail(fmt.Sprintf("%d goroutine(s) left behind after a handshake whose request write stalled [%s]", n-base, tag), "goroutine-leak", replay)
+		}
+		c.count(tag, true, "fault=handshake-write-stall")
+	}
+	// the same on the server side: the client sent a valid request and then stops reading, so the write of the response
+	// stalls; the transport honours deadlines
+	{
+		tap := &stallConn{memConn: newMemConn(), released: make(chan struct{})}
+		base := runtime.NumGoroutine()
+		t0 := time.Now()
+		var err error
+		var conn *gws.Conn
+		ok := runWithTimeout(5*time.Second, func() {
+			up := gws.NewUpgrader(&recHandler{}, &gws.ServerOption{HandshakeTimeout: 150 * time.Millisecond})
+			hd := http.Header{}
+			hd.Set("Connection", "Upgrade")
+			hd.Set("Upgrade", "websocket")
+			hd.Set("Sec-WebSocket-Version", "13")
+			hd.Set("Sec-WebSocket-Key", testKey)
+			r := &http.Request{Method: "GET", Header: hd, Proto: "HTTP/1.1", ProtoMajor: 1, ProtoMinor: 1}
+			conn, err = up.UpgradeFromConn(tap, bufio.NewReader(tap), r)
+		})
+		closed, _ := tap.isClosed()
+		tag := "server handshake, response write stalls, deadlines honoured"
+		replay := map[string]any{"tag": tag, "elapsed_ms": time.Since(t0).Milliseconds(), "err": fmt.Sprint(err)}
+		switch {
+		case !ok:
+			c.oracleFail(fmt.Sprintf("did not return within 5 s (timeout 150 ms), transport closed=%v [%s]", closed, tag), "handshake-timeout", replay)
+			_ = tap.Close()
+		case err == nil || conn != nil || !closed:
+			c.oracleFail(fmt.Sprintf("err=%v conn=%v transport closed=%v [%s]", err, conn != nil, closed, tag), "handshake-error-path", replay)
+		}
+		if n := settleGoroutines(base); n > base {
+			c.oracleFail(fmt.Sprintf("%d goroutine(s) left behind after a handshake whose response write stalled [%s]", n-base, tag), "goroutine-leak", replay)
 		}
 		c.count(tag, true, "fault=handshake-write-stall")
 	}
